@@ -17,7 +17,7 @@ from . import c13, core
 from .core import Report
 
 PROP = "C20"
-ACCEPT = {"K_clear": "C13-d", "K_live_drop": "C13-e"}
+ACCEPT = {"K_clear": "C13-d"}
 
 
 def gen_loop_history(rng: core.Rng, iters: int, query: str) -> List[list]:
